@@ -128,6 +128,22 @@ func (fc *funcContext) translateExpr(expr ast.Expr) *expression {
 			return fc.translateExpr(rewritten)
 		}
 
+		// An element that may block is evaluated in statements which precede the
+		// literal. To keep the elements in source order, the ones before it are
+		// then evaluated into variables as well.
+		preserveOrder := false
+		for i, element := range e.Elts {
+			preserveOrder = preserveOrder || (i > 0 && fc.Blocking[element])
+		}
+		ordered := func(element ast.Expr, translated string) string {
+			if !preserveOrder || fc.pkgCtx.Types[element].Value != nil {
+				return translated
+			}
+			eltVar := fc.newLocalVariable("_elt")
+			fc.Printf("%s = %s;", eltVar, translated)
+			return eltVar
+		}
+
 		collectIndexedElements := func(elementType types.Type) []string {
 			var elements []string
 			i := 0
@@ -144,7 +160,7 @@ func (fc *funcContext) translateExpr(expr ast.Expr) *expression {
 				for len(elements) <= i {
 					elements = append(elements, zero)
 				}
-				elements[i] = fc.translateImplicitConversionWithCloning(element, elementType).String()
+				elements[i] = ordered(element, fc.translateImplicitConversionWithCloning(element, elementType).String())
 				i++
 			}
 			return elements
@@ -167,7 +183,9 @@ func (fc *funcContext) translateExpr(expr ast.Expr) *expression {
 			entries := make([]string, len(e.Elts))
 			for i, element := range e.Elts {
 				kve := element.(*ast.KeyValueExpr)
-				entries[i] = fmt.Sprintf("{ k: %s, v: %s }", fc.translateImplicitConversionWithCloning(kve.Key, t.Key()), fc.translateImplicitConversionWithCloning(kve.Value, t.Elem()))
+				key := ordered(kve.Key, fc.translateImplicitConversionWithCloning(kve.Key, t.Key()).String())
+				value := ordered(kve.Value, fc.translateImplicitConversionWithCloning(kve.Value, t.Elem()).String())
+				entries[i] = fmt.Sprintf("{ k: %s, v: %s }", key, value)
 			}
 			return fc.formatExpr("$makeMap(%s.keyFor, [%s])", fc.typeName(t.Key()), strings.Join(entries, ", "))
 		case *types.Struct:
@@ -178,7 +196,7 @@ func (fc *funcContext) translateExpr(expr ast.Expr) *expression {
 			}
 			if !isKeyValue {
 				for i, element := range e.Elts {
-					elements[i] = fc.translateImplicitConversionWithCloning(element, fc.fieldType(t, i)).String()
+					elements[i] = ordered(element, fc.translateImplicitConversionWithCloning(element, fc.fieldType(t, i)).String())
 				}
 			}
 			if isKeyValue {
@@ -189,7 +207,7 @@ func (fc *funcContext) translateExpr(expr ast.Expr) *expression {
 					kve := element.(*ast.KeyValueExpr)
 					for j := range elements {
 						if kve.Key.(*ast.Ident).Name == t.Field(j).Name() {
-							elements[j] = fc.translateImplicitConversionWithCloning(kve.Value, fc.fieldType(t, j)).String()
+							elements[j] = ordered(kve.Value, fc.translateImplicitConversionWithCloning(kve.Value, fc.fieldType(t, j)).String())
 							break
 						}
 					}
